@@ -131,6 +131,8 @@ def scale_cases(n):
         ("body.new one long line", "body.new\t1\t%s" % hx(A(b"x"))),
         ("mboxes.parse many", "mboxes.parse\t%s" % hx(mb)),
         ("c19.msg_rcpts envelope of many", "c19.msg_rcpts\t%s" % hx(mb)),
+        ("dkim.sign relaxed blank run", "dkim.sign\ted\tr\tr\t%s\t%s\t%s\t%s\t!\t!\tbin\t%s" % ("|".join(hx(x) for x in (b"From", b"Subject")), hx(b"sel"), hx(b"x.example"), hx(b"s"), hx(b"a" + A(b" ") + b"b\r\n" + A(b"\t ") + b"\r\n"))),
+        ("dkim.sign simple many lines", "dkim.sign\trsa\ts\ts\t%s\t%s\t%s\t%s\t!\t!\tbin\t%s" % ("|".join(hx(x) for x in (b"From", b"Subject")), hx(b"sel"), hx(b"x.example"), hx(b"s"), hx((b"l \r\n\r\n" * (n // 6 + 1))[:n] + b"\r\n"))),
         ("mbox.parse long name", "mbox.parse\t%s" % hx(A(b"n") + b" <a@b.example>")),
         ("mbox.parse nested parens", "mbox.parse\t%s" % hx(A(b"(") + b"a@b.example")),
         ("mbox.parse nested angle", "mbox.parse\t%s" % hx(A(b"<") + b"a@b.example")),
